@@ -1,11 +1,11 @@
 #!/bin/bash
 # usage: tools/seeding/ingest_prop.sh <root> <tag> <Cxx>  — confirm both seeds of one property, then run the property's quick check on each
 root="$1"; tag="$2"; prop="$3"
-mkdir -p /dev/shm/r5
+mkdir -p /dev/shm/r5 /dev/shm/r6
 {
 for m in m1 m2; do
   [ -f "$root/$prop/_seed/$m/patch.diff" ] || { echo "$prop $m: no patch"; continue; }
-  SEED_ROOT="$root" SEED_TAG="$tag" /verif/tools/ingest_seed.py "$prop" "$m" 2>&1 | tail -3
+  SEED_ROOT="$root" SEED_TAG="$tag" /venv/bin/python /verif/tools/ingest_seed.py "$prop" "$m" 2>&1 | tail -3
   /verif/tools/runseed.sh "$prop-$tag$m" "$prop" quick
 done
-} > "/dev/shm/r5/$prop.log" 2>&1
+} > "/dev/shm/$tag/$prop.log" 2>&1
